@@ -21,7 +21,7 @@ RULE = ("request streams from the HTTP grammar (all verb families, targets, 0-3 
         "verifier byte) and is cross-checked against the byte-wise run. Non-trivial = segmentations with a cut strictly before "
         "the trigger byte; distinct = distinct (stream, cut positions).")
 ASSUME = ["replies to segments after the one that completed the request are not constrained",
-          "streams longer than about 120 bytes are only explored with sampled cuts"]
+          "streams longer than about 120 bytes are only explored with sampled cuts; requests of 1.4-3.5 KB (one jumbo frame unsegmented) with MSS-sized and sampled cuts, without the byte-wise run"]
 
 
 def gen_streams(rng, n_http, n_rpc, maxlen):
@@ -56,6 +56,21 @@ def gen_streams(rng, n_http, n_rpc, maxlen):
             struct.pack("!II", 1, cl) + bytes(rng.getrandbits(8) for _x in range(cl)) + struct.pack("!II", rng.choice([0, 1]), vl) + \
             bytes(rng.getrandbits(8) for _x in range(vl)) + bytes(rng.choice([0, 4, 8]))
         out.append(("rpc_odd", rpc.record(m), None, True, None))
+    # requests that do not fit one 1500-byte frame (long cookie / target; an RPC call followed by kilobytes of
+    # arguments): unsegmented they arrive in one jumbo / coalesced frame, segmented in MSS-sized pieces
+    for _ in range(2):
+        p = http.gen_parts(rng, max_target=12, max_headers=2)
+        filler = bytes(rng.choice(http.TOKEN + b"=; ") for _x in range(rng.randrange(1400, 3500)))
+        if rng.random() < 0.5:
+            p["headers"].insert(rng.randrange(len(p["headers"]) + 1), (b"Cookie", b" " + filler))
+        else:
+            p["target"] = b"/" + filler.replace(b" ", b"+")
+        s = http.build(p)
+        out.append(("http", s, len(s) - 1, True, None))
+    c = rpc.gen_call(rng, prog=rpc.PMAP, vers=2, proc=rng.choice([0, 3]), maxauth=8)
+    m = bytearray(c["msg"])
+    m[0] = rng.choice([0x01, 0x7A, 0x99, 0xFE])
+    out.append(("rpc", rpc.record(bytes(m) + bytes(rng.getrandbits(8) for _x in range(4 * rng.randrange(350, 800)))), 4 + c["trigger"], True, None))
     return out
 
 
@@ -89,6 +104,21 @@ def plans_for(rng, n, tier, full):
         if n - 1 >= k:
             plans.append(sorted(rng.sample(range(1, n), k)))
     plans.append(list(range(1, n)))     # byte-wise
+    return plans
+
+
+def plans_long(rng, n, trig):
+    """Cut lists for a stream too long for systematic exploration: unsegmented, MSS-sized pieces, sampled 1-/2-/k-cuts
+    (half of them before the trigger byte)."""
+    plans = [[]]
+    for mss in (1460, 1440, 1448, 536, 1220, 512):
+        plans.append(list(range(mss, n, mss)))
+    hi = min(n, (trig or n) + 1)
+    for _ in range(60):
+        k = rng.choice([1, 1, 2, 2, 3, 5])
+        top = hi if rng.random() < 0.6 else n
+        if top - 1 >= k:
+            plans.append(sorted(rng.sample(range(1, top), k)))
     return plans
 
 
@@ -213,7 +243,7 @@ def shard(ctx, budget_s, n_http, n_rpc, maxlen):
             ctx.stats["streams_skipped_budget"] += 1
             continue
         full = len(stream) <= (80 if ctx.tier == "quick" else 130) and kind != "http_neg"
-        plans = plans_for(rng, len(stream), ctx.tier, full)
+        plans = plans_for(rng, len(stream), ctx.tier, full) if len(stream) <= 600 else plans_long(rng, len(stream), trig)
         res = run_sessions(ctx, cfg, stream, plans)
         # reference: the unsegmented run (plan [])
         ref = [segs for cuts, segs in res if cuts == []]
